@@ -1,3 +1,120 @@
+import Mhd.Model.TmoLoop
 import Driver.Common
-/- stub: replaced by the builder of this engine -/
-def main : IO Unit := Driver.runEngine () (fun s _ => (s, ["bad-op"]))
+open Mhd.Tmo Driver
+
+/-- driver state: configuration being assembled, the daemon once started, which variant to run -/
+structure DSt where
+  cfg : Cfg := { epoll := false, dtmo := 0, allowSuspend := true }
+  d : Option Daemon := none
+  v : Variant := Variant.current
+
+def showList (l : List Id) : String := "[" ++ ",".intercalate (l.map toString) ++ "]"
+
+def showEvent : Event → Option String
+  | .started i => some s!"st{i}"
+  | .freed i => some s!"cc{i}"
+  | .tmoClose i aware => if aware then some s!"to{i}" else none
+  | .otherClose i code aware => if aware then some s!"co{i}:{code}" else none
+  | .suspended i => some s!"su{i}"
+
+/-- ids closed by the library in this operation whose client is still listening: it sees EOF
+    (`shutdown (SHUT_WR)` in MHD_connection_mark_closed_) -/
+def eofs (d : Daemon) (evs : List Event) : List String :=
+  (List.range maxConns).filterMap fun i =>
+    if evs.any (fun e => match e with
+        | .tmoClose j _ => j == i
+        | .otherClose j _ _ => j == i
+        | _ => false) && !(d.c i).peerClosed
+    then some s!"eof{i}" else none
+
+def showConn (d : Daemon) (i : Id) : Option String :=
+  if d.conns.contains i || d.susp.contains i || d.cleanup.contains i then
+    let c := d.c i
+    some (s!" {i}:{c.la}:{c.tmo}:" ++ (if c.suspended then "s" else "") ++ (if c.resuming then "r" else "")
+      ++ (if c.closed then "x" else ""))
+  else none
+
+def report (v : Variant) (echo : String) (d : Daemon) (evs : List Event) (extra : List String := []) : String :=
+  if d.fault then "fault list-corruption" else
+  let evl := extra ++ evs.filterMap showEvent ++ eofs d evs
+  let h := match hint v d with
+    | some n => toString n
+    | none => "none"
+  let fl := (if d.dataPending then "d" else "") ++ (if d.resuming then "r" else "")
+    ++ (if d.haveNew then "n" else "") ++ (if d.cleanup.isEmpty then "" else "c")
+  s!"{echo} ev=[{",".intercalate evl}] hint={h} now={d.now} fl={fl} C={showList d.conns} N={showList d.normal}"
+    ++ s!" M={showList d.manual} S={showList d.susp} E={showList d.eready} |"
+    ++ String.join ((List.range maxConns).filterMap (showConn d))
+
+def kvOf (w : String) : Option (String × String) :=
+  match w.splitOn "=" with
+  | [k, x] => some (k, x)
+  | _ => none
+
+def applyCfg (c : Cfg) (ws : List String) : Option Cfg :=
+  ws.foldl (fun acc w => match acc with
+    | none => none
+    | some c => match kvOf w with
+      | some ("mode", "select") => some { c with epoll := false }
+      | some ("mode", "epoll") => some { c with epoll := true }
+      | some ("timeout", x) => match x.toNat? with
+        | some n => if n ≤ 4000000 then some { c with dtmo := n * Mhd.Gen.Tmo.msPerSec } else none
+        | none => none
+      | some ("suspend", x) => match x.toNat? with
+        | some n => some { c with allowSuspend := n != 0 }
+        | none => none
+      | _ => none) (some c)
+
+def parseOp (ws : List String) : Option Op :=
+  match ws with
+  | ["arrive", a] => a.toNat?.map Op.arrive
+  | ["send", a] => a.toNat?.map Op.send
+  | ["sendp", a] => a.toNat?.map Op.sendp
+  | ["cclose", a] => a.toNat?.map Op.cclose
+  | ["tick", a] => a.toNat?.bind fun n => if n < W then some (Op.tick n) else none
+  | ["tickback", a] => a.toNat?.bind fun n => if n < W then some (Op.tickback n) else none
+  | ["set-timeout", a, b] => match a.toNat?, b.toNat? with
+    | some i, some s => some (Op.setTimeout i s)
+    | _, _ => none
+  | ["susp", a] => a.toNat?.map Op.susp
+  | ["resume", a] => a.toNat?.map Op.resume
+  | ["round"] => some Op.round
+  | _ => none
+
+def stepLine (s : DSt) (ws : List String) : DSt × List String :=
+  match ws with
+  | "case" :: rest => ({ v := s.v }, [s!"case {rest.headD "-"}"])
+  | "cfg" :: rest =>
+    if s.d.isSome then (s, ["bad-op"]) else
+    match applyCfg s.cfg rest with
+    | some c => ({ s with cfg := c }, ["ok"])
+    | none => (s, ["bad-op"])
+  | ["start"] =>
+    if s.d.isSome then (s, ["bad-op"]) else
+    let d := Daemon.init s.cfg
+    ({ s with d := some d }, [report s.v "start" d []])
+  | _ =>
+    match s.d with
+    | none => (s, ["bad-op"])
+    | some d =>
+      if d.fault then (s, ["fault list-corruption"]) else
+      match parseOp ws with
+      | none => (s, ["bad-op"])
+      | some o => match step s.v d o with
+        | none => (s, ["bad-op"])
+        | some (d', evs) =>
+          -- what MHD_get_connection_info (…CONNECTION_TIMEOUT) reads back after the override
+          let extra := match o with
+            | .setTimeout i _ => [s!"get{(d'.c i).tmo / Mhd.Gen.Tmo.msPerSec}"]
+            | _ => []
+          ({ s with d := some d' }, [report s.v (" ".intercalate ws) d' evs extra])
+
+/-- `drv_tmo` models the tree under test (`Variant.current`, regenerated);
+    `drv_tmo asis` / `drv_tmo fixed` force the pinned / the repaired behaviour (used by the
+    generator of Gen/Tmo.lean to recognise which one the real code shows). -/
+def main (args : List String) : IO Unit :=
+  let v : Variant := match args with
+    | ["asis"] => Variant.asIs
+    | ["fixed"] => ⟨true, true, true, true, Variant.current.savePrev⟩
+    | _ => Variant.current
+  runEngine ({ v := v } : DSt) stepLine
